@@ -81,22 +81,47 @@ pub(super) async fn call_deploy_apply_tool(
             );
         }
 
+        // Claim the token before applying so that two concurrent calls cannot both apply with
+        // it; it is put back below unless the apply succeeds (a token is single-use only for a
+        // successful apply).
+        let claimed = {
+            let mut store = server
+                .confirm_tokens
+                .lock()
+                .unwrap_or_else(|e| e.into_inner());
+            super::confirm::take_token(&mut store, &token)
+        };
+        let Some(claimed) = claimed else {
+            return super::tool_result_from_user_error(meta, UserError::confirm_token_mismatch());
+        };
+
         match call_deploy_apply_in_process(args).await {
             Ok((text, envelope)) => {
+                let mut store = server
+                    .confirm_tokens
+                    .lock()
+                    .unwrap_or_else(|e| e.into_inner());
                 if envelope
                     .get("ok")
                     .and_then(serde_json::Value::as_bool)
                     .unwrap_or(false)
                 {
-                    let mut store = server
-                        .confirm_tokens
-                        .lock()
-                        .unwrap_or_else(|e| e.into_inner());
                     super::confirm::consume_token(&mut store, &token);
+                } else {
+                    super::confirm::restore_token(&mut store, token, claimed);
                 }
+                drop(store);
                 super::tool_result_from_envelope(text, envelope)
             }
-            Err(err) => super::tool_result_unexpected(meta, &err),
+            Err(err) => {
+                let mut store = server
+                    .confirm_tokens
+                    .lock()
+                    .unwrap_or_else(|e| e.into_inner());
+                super::confirm::restore_token(&mut store, token, claimed);
+                drop(store);
+                super::tool_result_unexpected(meta, &err)
+            }
         }
     }
 }
